@@ -984,6 +984,19 @@ func runSess(env *Env) error {
 		withCD := i%10 == 3
 		top := filepath.Join(base, fmt.Sprintf("w%da", i))
 		w := genWorld(env, withCD)
+		// (costs about 30 s of model time: only in the runs of the properties about framing and listings)
+		wantBig := map[string]bool{"C03": true, "C06": true, "T": true}[os.Getenv("VERIF_PROP")]
+		if i == 7 && wantBig { // a directory with more entries than any plausible listing limit
+			big := &WNode{Name: "big", Dir: true, MTime: 1500000900}
+			for k := 0; k < 4100; k++ {
+				big.Kids = append(big.Kids, &WNode{Name: fmt.Sprintf("e%04d", k), MTime: 1400000000 + int64(k%7), Content: Content{{Kind: 'g', N: k % 3, A: k}}})
+			}
+			if w.Child("R").Child("big") == nil {
+				w.Child("R").Kids = append(w.Child("R").Kids, big)
+			}
+			env.Count("variant", "big-directory")
+		}
+		bigDir := i == 7 && wantBig
 		emptyRoot := i%16 == 9 // an empty served root, uploads allowed: the only state in which removing "/" could succeed
 		if emptyRoot {
 			w.Child("R").Kids = nil
@@ -1011,6 +1024,13 @@ func runSess(env *Env) error {
 				nreq = 100 + env.Rnd.Intn(100)
 			}
 			reqs = g.gen(nreq, withCD)
+			if bigDir { // the bulk listing of the big directory, and whether the connection is still in step afterwards
+				pre := []*Req{{Op: opOpenDir, Path: "/big"}, {Op: opReadDir}, {Op: opStatFile, Path: "/big/e0007"}, {Op: opOpenDir, Path: "/big"}, {Op: opReadDirEntry}, {Op: opGetDirSize, Path: "/big"}}
+				for _, q := range pre {
+					q.Junk = make([]byte, 14)
+				}
+				reqs = append(pre, reqs[:min(len(reqs), 6)]...)
+			}
 		}
 		mode := "steps"
 		var chunks [][]byte
@@ -1064,6 +1084,7 @@ func runSess(env *Env) error {
 		}
 		if st, err := os.Stat(filepath.Join(top, "R")); err != nil || !st.IsDir() {
 			env.OracleFail(id, fmt.Sprintf("[C05-root] the served root directory itself no longer exists after the session: %s", trim(describeReqs(reqs), 300)))
+			env.OracleFail(id, fmt.Sprintf("[C01-root] a request reached the served root directory itself (it was removed) instead of something below it: %s", trim(describeReqs(reqs), 300)))
 		}
 		if !allow && strings.Join(before, "\n") != strings.Join(res.dumpLines, "\n") {
 			env.OracleFail(id, "[C05-readonly] writing is disabled but the served tree changed")
